@@ -379,13 +379,35 @@ def check_no_length_tolerance(ctx, funcs):
                         tests.append(canon(pp.test))
                     cur = pp
                 st = '%s: %s' % (fi.qual, stmt_text(par.get(id(x), x))[:120])
-                if any("b'$'" in t and 'pattern' in t for t in tests):
+                if _only_for_eos_marker(ctx.repo, fi):
+                    ctx.holds(rule, fi, st, 'the strategy is installed only for the end-of-string marker (read-to-end field)', x.lineno, clause='iv')
+                elif any("b'$'" in t and 'pattern' in t for t in tests):
                     ctx.holds(rule, fi, st, 'len(raw) only under the end-of-string marker (read-to-end field)', x.lineno, clause='iv')
                 elif _rejecting(par, x):
                     ctx.holds(rule, fi, st, 'bounds check: len(raw) only decides whether to raise', x.lineno, clause='iv')
                 else:
                     ctx.violation(rule, fi, st, 'the length of the input steers parsing: an input cut inside this field parses to a shortened / absent value instead of failing', x.lineno, clause='iv')
     ctx.unit('len_raw_sites', n)
+
+
+def _only_for_eos_marker(repo, fi):
+    """every configuration under which _compile installs ``fi`` as the unpack strategy tests that
+    the marker is the end-of-string pattern"""
+    try:
+        ci = repo.cls(fi.qual.split('.')[0])
+        cands = [s_ for s_ in repo.strategies(ci) if s_['unpack'] is fi]
+    except Exception:
+        return False
+    if not cands:
+        return False
+    for s_ in cands:
+        gs_all = s_.get('guard_sets') or []
+        if not gs_all:
+            return False
+        for gs in gs_all:
+            if not any('pattern' in g and "b'$'" in g and '==' in g and not g.startswith('not ') for g in gs):
+                return False
+    return True
 
 
 def _rejecting(par, node):
